@@ -1714,8 +1714,25 @@ func (b *ASTBuilder) buildMatchCase(tsNode *sitter.Node) *Node {
 	node := NewNode(NodeMatchCase)
 	node.Location = b.getLocation(tsNode)
 
-	if pattern := b.getChildByFieldName(tsNode, "pattern"); pattern != nil {
-		node.Test = b.buildNode(pattern)
+	// The patterns are the case_pattern children of the clause (they have no
+	// field name); several of them ("case a, b:") form an open sequence pattern
+	var patterns []*Node
+	for i := 0; i < int(tsNode.NamedChildCount()); i++ {
+		if child := tsNode.NamedChild(i); child != nil && child.Type() == "case_pattern" {
+			if pattern := b.buildPattern(child); pattern != nil {
+				patterns = append(patterns, pattern)
+			}
+		}
+	}
+	if len(patterns) == 1 {
+		node.Test = patterns[0]
+	} else if len(patterns) > 1 {
+		seq := NewNode(NodeType("tuple_pattern"))
+		seq.Location = patterns[0].Location
+		for _, pattern := range patterns {
+			seq.AddChild(pattern)
+		}
+		node.Test = seq
 	}
 
 	if guard := b.getChildByFieldName(tsNode, "guard"); guard != nil {
@@ -1730,6 +1747,60 @@ func (b *ASTBuilder) buildMatchCase(tsNode *sitter.Node) *Node {
 	}
 
 	return node
+}
+
+// buildPattern builds a pattern of a case clause: a dotted name (value
+// pattern) becomes a name or an attribute chain, literals are built as
+// expressions, and every other pattern form (sequence, mapping, class, or,
+// as, splat, keyword) a node of its tree-sitter type holding its sub-patterns
+func (b *ASTBuilder) buildPattern(tsNode *sitter.Node) *Node {
+	if tsNode == nil {
+		return nil
+	}
+
+	nodeType := tsNode.Type()
+	switch {
+	case nodeType == "case_pattern" && tsNode.NamedChildCount() == 1:
+		// Wrapper around one pattern; a negative number has its sign here
+		inner := b.buildPattern(tsNode.NamedChild(0))
+		if inner != nil && b.hasChildOfType(tsNode, "-") {
+			neg := NewNode(NodeUnaryOp)
+			neg.Location = b.getLocation(tsNode)
+			neg.Op = "-"
+			neg.Value = inner
+			return neg
+		}
+		return inner
+	case nodeType == "dotted_name":
+		var node *Node
+		for i := 0; i < int(tsNode.NamedChildCount()); i++ {
+			part := tsNode.NamedChild(i)
+			if part == nil || part.Type() != "identifier" {
+				continue
+			}
+			if node == nil {
+				node = b.buildName(part)
+				continue
+			}
+			attr := NewNode(NodeAttribute)
+			attr.Location = b.getLocation(tsNode)
+			attr.Value = node
+			attr.Name = b.getNodeText(part)
+			node = attr
+		}
+		return node
+	case nodeType == "case_pattern" || strings.HasSuffix(nodeType, "_pattern"):
+		node := NewNode(NodeType(nodeType))
+		node.Location = b.getLocation(tsNode)
+		for i := 0; i < int(tsNode.NamedChildCount()); i++ {
+			if child := tsNode.NamedChild(i); child != nil && !b.isTrivia(child) {
+				node.AddChild(b.buildPattern(child))
+			}
+		}
+		return node
+	default:
+		return b.buildNode(tsNode)
+	}
 }
 
 // buildDecorator builds a decorator node
